@@ -37,6 +37,7 @@ type ValOp struct {
 	K     int         `json:"k,omitempty"`   // other properties: mapped to an in-range value of the characteristic at run time
 	Str   string      `json:"str,omitempty"` // content for string formats
 	Same  bool        `json:"same,omitempty"` // write the value the characteristic currently has
+	Over  int         `json:"over,omitempty"` // 1: write a value above the declared maximum, 2: below the minimum (it is clamped)
 }
 
 type ValScenario struct {
@@ -337,6 +338,9 @@ func genVal(prop string) func(rt *rapid.T) interface{} {
 					}
 					if prop == "C10" && rapid.IntRange(0, 5).Draw(rt, "same") == 0 {
 						op.Same = true
+					}
+					if prop == "C10" && !op.Same && rapid.IntRange(0, 4).Draw(rt, "over") == 0 {
+						op.Over = rapid.IntRange(1, 2).Draw(rt, "overdir")
 					}
 				}
 			}
@@ -697,12 +701,58 @@ func (vw *valWorld) valueOf(vc *valChar, op ValOp) interface{} {
 		return op.Val
 	}
 	vw.uniq++
+	if op.Over != 0 && (isIntFormat(vc.fmt) || vc.fmt == characteristic.FormatFloat) {
+		lo, hi := formatRange(charInfo{Format: vc.fmt, Min: vc.min, Max: vc.max})
+		_, hasMax := vc.max.(int)
+		_, hasMaxF := vc.max.(float64)
+		_, hasMin := vc.min.(int)
+		_, hasMinF := vc.min.(float64)
+		if op.Over == 1 && (hasMax || hasMaxF) {
+			vw.w.Sim.Count("probe.write_above_max")
+			return hi + float64(1+op.K%50)
+		}
+		if op.Over == 2 && (hasMin || hasMinF) && lo > 0 {
+			vw.w.Sim.Count("probe.write_below_min")
+			return lo - 1
+		}
+	}
 	return makeValue(vc.fmt, vc.min, vc.max, op, vw.uniq)
+}
+
+// clampModel is the value the accessory is expected to store for a written number.
+func clampModel(vc *valChar, v interface{}) interface{} {
+	f, ok := v.(float64)
+	if !ok {
+		return v
+	}
+	if isIntFormat(vc.fmt) || vc.fmt == characteristic.FormatFloat {
+		switch mx := vc.max.(type) {
+		case int:
+			if f > float64(mx) {
+				return float64(mx)
+			}
+		case float64:
+			if f > mx {
+				return mx
+			}
+		}
+		switch mn := vc.min.(type) {
+		case int:
+			if f < float64(mn) {
+				return float64(mn)
+			}
+		case float64:
+			if f < mn {
+				return mn
+			}
+		}
+	}
+	return v
 }
 
 // expectStored is the value the model expects the characteristic to hold after writing v.
 func (vw *valWorld) expectStored(vc *valChar, v interface{}) string {
-	return canon(toNative(vc.fmt, v))
+	return canon(toNative(vc.fmt, clampModel(vc, v)))
 }
 
 func (vw *valWorld) appOp(name string, op ValOp) {
@@ -1248,81 +1298,120 @@ func (vw *valWorld) checkC10() {
 		conns = append(conns, id)
 	}
 	sort.Ints(conns)
+	// group the writes by (characteristic, value): values are unique where the format allows,
+	// otherwise the counts of the group bound the number of events
+	type key struct {
+		pos   int
+		value string
+	}
+	groups := map[key][]*valWrite{}
+	var order []key
 	for _, wr := range vw.writes {
-		vc := vw.chars[wr.pos]
-		// the value must be attributable to exactly this write
-		unique := true
-		for _, o := range vw.writes {
-			if o != wr && o.pos == wr.pos && o.value == wr.value {
-				unique = false
-			}
+		k := key{wr.pos, wr.value}
+		if _, ok := groups[k]; !ok {
+			order = append(order, k)
 		}
-		if !unique || vc.fmt == characteristic.FormatBool {
-			continue
-		}
-		changes := !wr.same && !wr.refused && !(vw.initial[wr.pos] == wr.value && vw.firstWrite(wr))
+		groups[k] = append(groups[k], wr)
+	}
+	for _, k := range order {
+		vc := vw.chars[k.pos]
 		for _, x := range conns {
 			n := 0
 			for _, ev := range vw.events {
-				if ev.conn == x && ev.pos == wr.pos && ev.value == wr.value {
+				if ev.conn == x && ev.pos == k.pos && ev.value == k.value {
 					n++
 				}
 			}
-			if n > 1 {
-				vw.violate("event-duplicated", "connection c%d received %d EVENTs for the change %s=%s", x, n, vc.name, wr.value)
+			allowed, required := 0, 0
+			var why string
+			var first *valWrite
+			for _, wr := range groups[k] {
+				ch := vw.changes(wr)
+				must, mustNot := vw.expectation(x, wr, ch)
+				if !mustNot {
+					allowed++
+				} else if why == "" {
+					why = vw.whyNot(x, wr, ch)
+					first = wr
+				}
+				if must {
+					required++
+				}
+			}
+			if n > allowed {
+				origin := ""
+				if first != nil {
+					origin = first.origin
+				}
+				if allowed == 0 {
+					vw.violate("event-unexpected:"+why, "connection c%d received an EVENT for %s=%s (written by %s) although it %s", x, vc.name, k.value, origin, why)
+				} else {
+					vw.violate("event-duplicated", "connection c%d received %d EVENTs for %s=%s, at most %d writes can have caused one", x, n, vc.name, k.value, allowed)
+				}
 				return
 			}
-			must, mustNot := vw.expectation(x, wr, changes)
-			if mustNot && n != 0 {
-				vw.violate("event-unexpected:"+vw.whyNot(x, wr, changes), "connection c%d received an EVENT for %s=%s (written by %s) although it %s", x, vc.name, wr.value, wr.origin, vw.whyNot(x, wr, changes))
-				return
-			}
-			if must && n != 1 {
-				vw.violate("event-missing", "connection c%d is subscribed to %s and open, but received no EVENT for the change to %s made by %s", x, vc.name, wr.value, wr.origin)
+			if n < required {
+				vw.violate("event-missing", "connection c%d is subscribed to %s and open, but received %d EVENT(s) for %d change(s) to %s", x, vc.name, n, required, k.value)
 				return
 			}
 		}
 	}
 }
 
-func (vw *valWorld) firstWrite(wr *valWrite) bool {
+// changes tells whether a write changed the stored value: 1 yes, 0 no, -1 unknown
+// (another write overlaps it or the one before it).
+func (vw *valWorld) changes(wr *valWrite) int {
+	if wr.refused {
+		return 0
+	}
+	vc := vw.chars[wr.pos]
+	if vw.concurrentWrite(wr) {
+		return -1
+	}
+	var prev *valWrite
 	for _, o := range vw.writes {
-		if o.pos == wr.pos && o.inv < wr.inv {
-			return false
+		if o == wr || o.pos != wr.pos || o.refused || o.ret == 0 || o.ret > wr.inv {
+			continue
+		}
+		if prev == nil || o.ret > prev.ret {
+			prev = o
 		}
 	}
-	return true
+	prevVal := vw.initial[wr.pos]
+	if prev != nil {
+		if vw.concurrentWrite(prev) {
+			return -1
+		}
+		prevVal = prev.value
+	}
+	if prevVal != wr.value {
+		return 1
+	}
+	if vc.name == "ProgrammableSwitchEvent" {
+		return -1 // documented to notify on every write
+	}
+	return 0
 }
 
-func (vw *valWorld) whyNot(x int, wr *valWrite, changes bool) string {
+func (vw *valWorld) whyNot(x int, wr *valWrite, changes int) string {
 	vc := vw.chars[wr.pos]
 	switch {
 	case !hasPerm(vc.perm, "ev"):
 		return "characteristic does not permit events"
 	case wr.conn == x:
 		return "made the change itself"
-	case !changes:
+	case changes == 0:
 		return "value did not change"
 	default:
 		return "was not subscribed (never subscribed, unsubscribed, or closed)"
 	}
 }
 
-// expectation implements the interval rules of the C10 oracle for connection x and change wr.
-func (vw *valWorld) expectation(x int, wr *valWrite, changes bool) (must, mustNot bool) {
+// expectation implements the interval rules of the C10 oracle for connection x and write wr.
+func (vw *valWorld) expectation(x int, wr *valWrite, changes int) (must, mustNot bool) {
 	vc := vw.chars[wr.pos]
-	if !hasPerm(vc.perm, "ev") || wr.conn == x || wr.refused {
+	if !hasPerm(vc.perm, "ev") || wr.conn == x || wr.refused || changes == 0 {
 		return false, true
-	}
-	if wr.same {
-		// a write of the current value: no event, unless another write overlaps (then the value may have changed in between)
-		if !vw.concurrentWrite(wr) {
-			return false, true
-		}
-		return false, false
-	}
-	if !changes {
-		return false, false
 	}
 	// subscription state of x for this characteristic relative to the change interval
 	var lastBefore *valSubOp
@@ -1336,10 +1425,10 @@ func (vw *valWorld) expectation(x int, wr *valWrite, changes bool) (must, mustNo
 			if lastBefore == nil || so.ret > lastBefore.ret {
 				lastBefore = so
 			}
-		} else if so.inv < wr.ret {
+		} else if so.inv < wr.ret || wr.ret == 0 {
 			overlap = true
 		}
-		if so.on && so.inv < wr.ret {
+		if so.on && (so.inv < wr.ret || wr.ret == 0) {
 			anySubBeforeEnd = true
 		}
 	}
@@ -1353,16 +1442,9 @@ func (vw *valWorld) expectation(x int, wr *valWrite, changes bool) (must, mustNo
 	if overlap || (closed && cl[0] < wr.ret) {
 		return false, false
 	}
-	// a change that overlaps another write to the same characteristic may be absorbed
-	if vw.concurrentWrite(wr) {
-		if lastBefore != nil && !lastBefore.on {
-			return false, true
-		}
-		return false, false
-	}
 	if lastBefore != nil && lastBefore.on {
-		if closed {
-			return false, false // open until the final drain is required for "must"
+		if closed || changes != 1 {
+			return false, false // must needs: open until the final drain, and certainly a change
 		}
 		return true, false
 	}
